@@ -32,6 +32,8 @@ var arpaRoots = []string{
 	"İn-addr.arpa", "İp6.arpa", "in-addr.arpa\x00", "in-addr.ARPA", "ıp6.arpa", "ip6.arpK", "in\raddr.arpa", "ip\x16.arpa", "in-addr\x0earpa", "IN\rADDR.ARPA", "ip6\x0earpa",
 }
 
+var quickRoots = []string{"in-addr.arpa", "IN-ADDR.ARPA", "In-Addr.Arpa.", "ip6.arpa", "Ip6.arpa.", "in-addr.arpa.", "xin-addr.arpa", "in-addr.arpa.x"}
+
 var v4PrefixLabels = []string{"0", "1", "9", "10", "99", "100", "255", "256", "00", "01", "000", "1a", "a", "", "-1", "+1", "0x1", "1e1", "é", "１", "0377", "25５", "host192", "1234", "x255", "::ffff:4", "0:0:0:0:0:ffff:4", "1_0", "2_5_5", "1__0", "/", ":"}
 
 var hexd = "0123456789abcdef"
@@ -76,7 +78,13 @@ func NameFamilies(thorough bool) []Family {
 			if p != "" || len(parts) > 0 {
 				p += "."
 			}
-			for _, root := range arpaRoots {
+			roots := arpaRoots
+			if len(parts) >= 4 && !thorough {
+				// four and more labels x 34 label values: the quick tier keeps the well-formed roots and two
+				// near-misses, the thorough tier every root spelling
+				roots = quickRoots
+			}
+			for _, root := range roots {
 				emit(p + root)
 			}
 		}))
@@ -215,6 +223,11 @@ func NameFamilies(thorough bool) []Family {
 		}
 	}
 	fams = append(fams, List("lengths", lens))
+	fams = append(fams, List("bytesweep", ByteSweep([]string{
+		"ab.example.com", "a-b.c1", "_sip._tcp.example.com", "xn--e1afmkfd.com", "a.b",
+		"4.3.2.1.in-addr.arpa", "10.in-addr.arpa.", "255.0.168.192.IN-ADDR.ARPA", "host.3.2.1.in-addr.arpa",
+		"8.b.d.0.1.0.0.2.ip6.arpa", "f.E.d.C.ip6.arpa.", strings.Join(NibbleRun(32, 5), ".") + ".ip6.arpa", "x.a.9.ip6.arpa",
+	})))
 	fams = append(fams, Alpha("alpha_name", []string{"a", "1", "-", "_", ".", "A", "é", "\xff"}, pick(6, 7)))
 	fams = append(fams, Alpha("alpha_arpa", []string{"1", "a", ".", "ip6.arpa", "in-addr.arpa", "0", "A"}, pick(7, 9)))
 
